@@ -27,6 +27,9 @@ func xorBytes[A any](a A) A {
 	return a
 }
 
+// ident: the identity as a conversion (BiMap over it is a lens that is not a field lens and focuses the same bytes)
+func ident[A any](a A) A { return a }
+
 // lensCombo: something with Get(*S) B / Put(*S, B) *S, exercised like a field lens
 func lensCombo(kind string, req obj, tys map[string]reflect.Type, B reflect.Type, mk func() any) combo {
 	return combo{Kind: kind, Req: req, Tys: tys, Run: func(sd *shapeDef, ar *arena) obj {
